@@ -188,6 +188,8 @@ type pathState struct {
 	reached     map[string]bool
 	racePairs   int
 	raceQueries int
+	facts       map[*smt.Term]bool
+	factHits    int
 }
 
 type unsupportedPanic struct{ msg string }
